@@ -80,7 +80,8 @@ package framework
 //@ define wfKnown(s *Statement) bool = forall j int :: 0 <= j && j < len(s.operations) ==> knownOp(s.operations[j])
 //@ define wfRev(s *Statement) bool = forall j int :: 0 <= j && j < len(s.operations) ==> revFn(s.operations[j]) != nil
 //@ define wfBack(s *Statement) bool = forall j int :: 0 <= j && j < len(s.operations) && isUndoOp(s.operations[j]) ==> 0 <= undoTarget(s.operations[j]) && undoTarget(s.operations[j]) < j
-//@ define wfLog(s *Statement) bool = wfKnown(s) && wfRev(s) && wfBack(s)
+//@ define wfTask(s *Statement) bool = forall j int :: 0 <= j && j < len(s.operations) && !isUndoOp(s.operations[j]) ==> opTask(s.operations[j]) != nil
+//@ define wfLog(s *Statement) bool = wfKnown(s) && wfRev(s) && wfBack(s) && wfTask(s)
 // entry j is an undo entry for entry i
 //@ define targets(s *Statement, j int, i int) bool = isUndoOp(s.operations[j]) && undoTarget(s.operations[j]) == i
 //@ define noUndoFor(s *Statement, i int) bool = forall j int :: 0 <= j && j < len(s.operations) ==> !targets(s, j, i)
@@ -117,19 +118,20 @@ package framework
 //@ define logsGrow() bool = forall st *Statement :: len(st.operations) >= old(len(st.operations))
 //@ define entriesKept() bool = forall st *Statement, j int :: 0 <= j && j < old(len(st.operations)) ==> st.operations[j] == old(st.operations[j])
 // entries appended by the callee are well-formed ones (together with entriesKept: wfLog is preserved)
-//@ define okEntry(o Operation, j int) bool = knownOp(o) && revFn(o) != nil && (isUndoOp(o) ==> 0 <= undoTarget(o) && undoTarget(o) < j)
+//@ define okEntry(o Operation, j int) bool = knownOp(o) && revFn(o) != nil && (!isUndoOp(o) ==> opTask(o) != nil) && (isUndoOp(o) ==> 0 <= undoTarget(o) && undoTarget(o) < j)
 //@ define newEntriesOK() bool = forall st *Statement, j int :: old(len(st.operations)) <= j && j < len(st.operations) ==> okEntry(st.operations[j], j)
 // address-taken locals of the caller (captured by the redo closures) are not reachable by the callee
-//@ define localsKept() bool = (forall p **Statement :: *p == old(*p)) && (forall p *Operation :: old(allocated(p)) ==> *p == old(*p))
+//@ define localsKept() bool = (forall p **Statement :: old(allocated(p)) ==> *p == old(*p)) && (forall p **pod_info.PodInfo :: old(allocated(p)) ==> *p == old(*p)) && (forall p *Operation :: old(allocated(p)) ==> *p == old(*p))
 
 // number of ReverseOperation invocations so far (ghost): lets callers state "nothing is reversed for
-// an already undone entry" and "exactly one reversal per undone entry".
+// an already undone entry" and "every still valid entry that is undone is reversed".
 //@ ghost reversals() int
 
 //@ func type:ReverseOperation
 //@   modifies *
 //@   ensures [assumed] logsGrow() && entriesKept() && newEntriesOK() && localsKept()
-//@   ensures [assumed] reversals() == old(reversals()) + 1
+//@   ensures [assumed] reversals() >= old(reversals()) + 1
+//@   ensures [assumed] cache.evictCalls() == old(cache.evictCalls()) && cache.pipelinedCalls() == old(cache.pipelinedCalls()) && cache.bindCalls() == old(cache.bindCalls())
 //@   note every ReverseOperation value is one of the closures created in Evict/Pipeline/Allocate/undoOperation; each calls unevict/unpipeline/unallocate or Evict/Pipeline/Allocate/undoOperation, which only append to logs
 //@ end
 
@@ -137,7 +139,8 @@ package framework
 //@   requires knownOp(recv) && revFn(recv) != nil
 //@   modifies *
 //@   ensures [assumed] logsGrow() && entriesKept() && newEntriesOK() && localsKept()
-//@   ensures [assumed] reversals() == old(reversals()) + 1
+//@   ensures [assumed] reversals() >= old(reversals()) + 1
+//@   ensures [assumed] cache.evictCalls() == old(cache.evictCalls()) && cache.pipelinedCalls() == old(cache.pipelinedCalls()) && cache.bindCalls() == old(cache.bindCalls())
 //@   note assumed at invoke sites; the four implementations (below) just call the stored ReverseOperation and are verified against this statement
 //@ end
 //@ func (evictOperation).Reverse
@@ -145,28 +148,32 @@ package framework
 //@   requires op.reverseOperation != nil
 //@   modifies *
 //@   ensures logsGrow() && entriesKept() && newEntriesOK() && localsKept()
-//@   ensures reversals() == old(reversals()) + 1
+//@   ensures reversals() >= old(reversals()) + 1
+//@   ensures cache.evictCalls() == old(cache.evictCalls()) && cache.pipelinedCalls() == old(cache.pipelinedCalls()) && cache.bindCalls() == old(cache.bindCalls())
 //@ end
 //@ func (pipelineOperation).Reverse
 //@   props C13
 //@   requires op.reverseOperation != nil
 //@   modifies *
 //@   ensures logsGrow() && entriesKept() && newEntriesOK() && localsKept()
-//@   ensures reversals() == old(reversals()) + 1
+//@   ensures reversals() >= old(reversals()) + 1
+//@   ensures cache.evictCalls() == old(cache.evictCalls()) && cache.pipelinedCalls() == old(cache.pipelinedCalls()) && cache.bindCalls() == old(cache.bindCalls())
 //@ end
 //@ func (allocateOperation).Reverse
 //@   props C13
 //@   requires op.reverseOperation != nil
 //@   modifies *
 //@   ensures logsGrow() && entriesKept() && newEntriesOK() && localsKept()
-//@   ensures reversals() == old(reversals()) + 1
+//@   ensures reversals() >= old(reversals()) + 1
+//@   ensures cache.evictCalls() == old(cache.evictCalls()) && cache.pipelinedCalls() == old(cache.pipelinedCalls()) && cache.bindCalls() == old(cache.bindCalls())
 //@ end
 //@ func (undoOperation).Reverse
 //@   props C13
 //@   requires op.reverseOperation != nil
 //@   modifies *
 //@   ensures logsGrow() && entriesKept() && newEntriesOK() && localsKept()
-//@   ensures reversals() == old(reversals()) + 1
+//@   ensures reversals() >= old(reversals()) + 1
+//@   ensures cache.evictCalls() == old(cache.evictCalls()) && cache.pipelinedCalls() == old(cache.pipelinedCalls()) && cache.bindCalls() == old(cache.bindCalls())
 //@ end
 
 // entry i was undone and that undo is live (depth-2 case of operationValid)
@@ -182,9 +189,12 @@ package framework
 //@   ensures [wfKnown] wfKnown(s)
 //@   ensures [wfRev] wfRev(s)
 //@   ensures [wfBack] wfBack(s)
+//@   ensures [wfTask] wfTask(s)
 //@   ensures [invalidSkipped] old(undone(s, index)) ==> result == nil && len(s.operations) == old(len(s.operations)) && reversals() == old(reversals())
-//@   ensures [atMostOneReversal] old(reversals()) <= reversals() && reversals() <= old(reversals()) + 1
-//@   ensures [validReversedOnce] old(noUndoFor(s, index)) ==> reversals() == old(reversals()) + 1
+//@   ensures [virtual] cache.evictCalls() == old(cache.evictCalls()) && cache.pipelinedCalls() == old(cache.pipelinedCalls()) && cache.bindCalls() == old(cache.bindCalls())
+//@   ensures [callerLocals] localsKept()
+//@   ensures [reversalsMonotone] old(reversals()) <= reversals()
+//@   ensures [validReversedOnce] old(noUndoFor(s, index)) ==> reversals() >= old(reversals()) + 1
 //@   ensures [appendsUndoEntry] old(noUndoFor(s, index)) && result == nil ==> len(s.operations) > old(len(s.operations)) && targets(s, len(s.operations) - 1, index)
 //@ end
 
@@ -204,7 +214,7 @@ package framework
 
 // C13: "rolls back to a checkpoint": post len' == cp; entries below the checkpoint are untouched;
 // every entry >= cp is visited once, last to first (the loop variant is the entry index), each still
-// valid one is reversed exactly once (undoOperation), already undone ones are skipped.
+// valid one is reversed (undoOperation), already undone ones are skipped.
 //@ func (*Statement).Rollback
 //@   props C13
 //@   requires s != nil && wfLog(s)
@@ -217,16 +227,19 @@ package framework
 //@     invariant wfKnown(s)
 //@     invariant wfRev(s)
 //@     invariant wfBack(s)
-//@     invariant reversals() - old(reversals()) <= old(len(s.operations)) - 1 - i
+//@     invariant wfTask(s)
+//@     invariant reversals() >= old(reversals())
+//@     invariant cache.evictCalls() == old(cache.evictCalls()) && cache.pipelinedCalls() == old(cache.pipelinedCalls()) && cache.bindCalls() == old(cache.bindCalls())
 //@     decreases i - cp + 1
 //@   ensures [badCheckpoint] cp < 0 || cp > old(len(s.operations)) ==> result != nil && s.operations == old(s.operations) && reversals() == old(reversals())
 //@   ensures [lenIsCheckpoint] 0 <= cp && cp <= old(len(s.operations)) && result == nil ==> len(s.operations) == cp
 //@   ensures [belowCheckpointKept] 0 <= cp && cp <= old(len(s.operations)) ==> forall j int :: 0 <= j && j < cp ==> s.operations[j] == old(s.operations[j])
 //@   ensures [failedKeepsLog] result != nil ==> len(s.operations) >= old(len(s.operations))
-//@   ensures [atMostOncePerEntry] 0 <= cp && cp <= old(len(s.operations)) ==> reversals() - old(reversals()) <= old(len(s.operations)) - cp
+//@   ensures [virtual] cache.evictCalls() == old(cache.evictCalls()) && cache.pipelinedCalls() == old(cache.pipelinedCalls()) && cache.bindCalls() == old(cache.bindCalls())
 //@   ensures [wfKnown] wfKnown(s)
 //@   ensures [wfRev] wfRev(s)
 //@   ensures [wfBack] wfBack(s)
+//@   ensures [wfTask] wfTask(s)
 //@ end
 
 // C13: "any sequence ... that an action later discards": post len' == 0 on every path.
@@ -241,10 +254,12 @@ package framework
 //@     invariant wfKnown(s)
 //@     invariant wfRev(s)
 //@     invariant wfBack(s)
-//@     invariant reversals() - old(reversals()) <= old(len(s.operations)) - 1 - i
+//@     invariant wfTask(s)
+//@     invariant reversals() >= old(reversals())
+//@     invariant cache.evictCalls() == old(cache.evictCalls()) && cache.pipelinedCalls() == old(cache.pipelinedCalls()) && cache.bindCalls() == old(cache.bindCalls())
 //@     decreases i + 1
 //@   ensures [logEmpty] len(s.operations) == 0
-//@   ensures [atMostOncePerEntry] reversals() - old(reversals()) <= old(len(s.operations))
+//@   ensures [virtual] cache.evictCalls() == old(cache.evictCalls()) && cache.pipelinedCalls() == old(cache.pipelinedCalls()) && cache.bindCalls() == old(cache.bindCalls())
 //@   ensures [emptyIsNoop] old(len(s.operations)) == 0 ==> reversals() == old(reversals())
 //@ end
 
@@ -371,4 +386,367 @@ package framework
 //@     decreases len(ssn.QueueOrderFns) - rangeindex
 //@   ensures [fifoFallback] len(ssn.QueueOrderFns) == 0 ==> result == fifoLessQueue(lQ, rQ)
 //@   lemma [asymmetric] len(ssn.QueueOrderFns) == 0 && result ==> !fifoLessQueue(rQ, lQ)
+//@ end
+
+// ---- event handlers -----------------------------------------------------------------------------
+// Plugin event handlers (proportion: queue usage; dynamicresources: claim tracker and the task's
+// ResourceClaimInfo entries) only change plugin-private state - abstracted by the ghost pluginState -
+// and the entries of the task's ResourceClaimInfo map. allocEvents/deallocEvents count the firings,
+// so that "the un-op fires the opposite handler" is observable.
+//@ ghost pluginState() int
+//@ ghost allocEvents() int
+//@ ghost deallocEvents() int
+
+//@ func field:EventHandler.AllocateFunc
+//@   requires event != nil && event.Task != nil
+//@   modifies pluginState(), allocEvents(), event.Task.ResourceClaimInfo[*]
+//@   ensures allocEvents() == old(allocEvents()) + 1
+//@   note assumed: the registered handlers (proportion.allocateHandlerFn, dynamicresources.allocateHandlerFn) write only plugin-private state and the task's ResourceClaimInfo entries
+//@ end
+//@ func field:EventHandler.DeallocateFunc
+//@   requires event != nil && event.Task != nil
+//@   modifies pluginState(), deallocEvents(), event.Task.ResourceClaimInfo[*]
+//@   ensures deallocEvents() == old(deallocEvents()) + 1
+//@   note assumed: the registered handlers (proportion.deallocateHandlerFn, dynamicresources.deallocateHandlerFn) write only plugin-private state and the task's ResourceClaimInfo entries
+//@ end
+
+//@ define handlersOK(ssn *Session) bool = forall i int :: 0 <= i && i < len(ssn.eventHandlers) ==> ssn.eventHandlers[i] != nil
+//@ define allHaveAlloc(ssn *Session) bool = forall i int :: 0 <= i && i < len(ssn.eventHandlers) ==> ssn.eventHandlers[i].AllocateFunc != nil
+//@ define allHaveDealloc(ssn *Session) bool = forall i int :: 0 <= i && i < len(ssn.eventHandlers) ==> ssn.eventHandlers[i].DeallocateFunc != nil
+//@ define mapsOK(c *api.ClusterInfo) bool = (forall k in c.PodGroupInfos :: c.PodGroupInfos[k] != nil) && (forall k in c.Nodes :: c.Nodes[k] != nil)
+//@ define sessOK(ssn *Session) bool = ssn != nil && ssn.ClusterInfo != nil && handlersOK(ssn) && mapsOK(ssn.ClusterInfo)
+//@ define stmtOK(s *Statement) bool = s != nil && sessOK(s.ssn)
+// the session skeleton (what stmtOK and the node/job look-ups depend on) is untouched
+//@ define sessionKept(ssn *Session) bool = (forall st *Statement :: st.ssn == old(st.ssn)) && ssn.ClusterInfo == old(ssn.ClusterInfo) && ssn.Cache == old(ssn.Cache) && sessOK(ssn) && (forall k string :: (k in ssn.ClusterInfo.Nodes) == old(k in ssn.ClusterInfo.Nodes))
+
+// what Commit needs to stay true while it walks the log: session skeleton, bind mutators, shared-GPU
+// maps present on every node, and the Pod pointers of tasks
+//@ define nodesShared(c *api.ClusterInfo) bool = forall k in c.Nodes :: c.Nodes[k].UsedSharedGPUsMemory != nil
+//@ define bindFnsOK(ssn *Session) bool = forall i int :: 0 <= i && i < len(ssn.BindRequestMutateFns) ==> ssn.BindRequestMutateFns[i] != nil
+//@ define commitEnvKept(ssn *Session) bool = sessionKept(ssn) && ssn.BindRequestMutateFns == old(ssn.BindRequestMutateFns) && (old(bindFnsOK(ssn)) ==> bindFnsOK(ssn)) && (old(nodesShared(ssn.ClusterInfo)) ==> nodesShared(ssn.ClusterInfo)) && (forall t *pod_info.PodInfo :: t.Pod == old(t.Pod))
+
+// C13 "abandoned scenarios can [not] reach the cluster": a virtual step never calls the cache
+//@ define noEmission() bool = cache.evictCalls() == old(cache.evictCalls()) && cache.pipelinedCalls() == old(cache.pipelinedCalls()) && cache.bindCalls() == old(cache.bindCalls())
+// no statement's log is touched
+//@ define logsSame() bool = (forall st *Statement :: st.operations == old(st.operations)) && (forall p *Operation :: old(allocated(p)) ==> *p == old(*p))
+
+// C14's invariants of the node / job / task the statement operations work on. They are established and
+// preserved by the node_info / podgroup_info contracts (C14); the statement operations ASSUME them at
+// entry for the objects they look up (an `assume` is listed in the evidence), so that C13's contracts
+// do not depend on how callers carry those invariants around.
+//@ define nodeReady(n *node_info.NodeInfo, t *pod_info.PodInfo) bool = n != nil ==> node_info.nodeWF(n) && node_info.podsWF(n) && node_info.taskWF(t) && node_info.taskSeparate(n, t) && node_info.storedOK(n, t)
+//@ define jobReady(j *podgroup_info.PodGroupInfo, t *pod_info.PodInfo) bool = j != nil ==> podgroup_info.idxWF(j) && podgroup_info.allPsWF(j) && podgroup_info.allTasksOK(j) && podgroup_info.indexed(j, t) && podgroup_info.stored(j, t) && podgroup_info.accOK(j, t.ResReq, t.ResReqVector)
+// the job's pod maps are not the node's pod map (same Go type, never shared)
+//@ define jobNodeSep(j *podgroup_info.PodGroupInfo, n *node_info.NodeInfo) bool = j != nil && n != nil ==> (forall k in j.PodSets :: j.PodSets[k].podInfos != n.PodInfos && (forall s2 in j.PodSets[k].podStatusIndex :: j.PodSets[k].podStatusIndex[s2] != n.PodInfos)) && (forall st in j.PodStatusIndex :: j.PodStatusIndex[st] != n.PodInfos)
+
+// ---- un-ops ---------------------------------------------------------------------------------------
+// C13: "the matching un-op restores Status, NodeName, GPUGroups, IsVirtualStatus, ResourceClaimInfo
+// ... and fires the opposite handler".
+//@ func (*Statement).unevict
+//@   props C13
+//@   requires stmtOK(s) && reclaimee != nil
+//@   assume jobReady(s.ssn.ClusterInfo.PodGroupInfos[reclaimee.Job], reclaimee) && nodeReady(node, reclaimee) && jobNodeSep(s.ssn.ClusterInfo.PodGroupInfos[reclaimee.Job], node)
+//@   modifies *
+//@   loop 1
+//@     invariant 0 - 1 <= rangeindex && rangeindex < len(s.ssn.eventHandlers)
+//@     invariant allocEvents() - old(allocEvents()) <= rangeindex + 1
+//@     invariant old(allHaveAlloc(s.ssn)) ==> allocEvents() - old(allocEvents()) == rangeindex + 1
+//@     decreases len(s.ssn.eventHandlers) - rangeindex
+//@   ensures [ok] result == nil
+//@   ensures [restoresGpuGroups] reclaimee.GPUGroups == previousGpuGroups
+//@   ensures [restoresVirtual] reclaimee.IsVirtualStatus == previousIsVirtualStatus
+//@   ensures [restoresClaims] reclaimee.ResourceClaimInfo == previousResourceClaimInfo
+//@   ensures [restoresStatus] reclaimee.Status == previousStatus || reclaimee.Status == old(reclaimee.Status)
+//@   ensures [nodeNameKept] reclaimee.NodeName == old(reclaimee.NodeName)
+//@   ensures [oppositeHandler] deallocEvents() == old(deallocEvents()) && (old(allHaveAlloc(s.ssn)) ==> allocEvents() == old(allocEvents()) + old(len(s.ssn.eventHandlers)))
+//@   ensures [virtual] noEmission() && reversals() == old(reversals())
+//@   ensures [logsSame] logsSame()
+//@   ensures [commitEnvKept] commitEnvKept(s.ssn)
+//@ end
+
+//@ func (*Statement).unpipeline
+//@   props C13
+//@   requires stmtOK(s) && task != nil
+//@   assume jobReady(s.ssn.ClusterInfo.PodGroupInfos[task.Job], task) && nodeReady(s.ssn.ClusterInfo.Nodes[task.NodeName], task) && jobNodeSep(s.ssn.ClusterInfo.PodGroupInfos[task.Job], s.ssn.ClusterInfo.Nodes[task.NodeName])
+//@   modifies *
+//@   loop 1
+//@     invariant 0 - 1 <= rangeindex && rangeindex < len(s.ssn.eventHandlers)
+//@     invariant deallocEvents() - old(deallocEvents()) <= rangeindex + 1
+//@     invariant old(allHaveDealloc(s.ssn)) ==> deallocEvents() - old(deallocEvents()) == rangeindex + 1
+//@     decreases len(s.ssn.eventHandlers) - rangeindex
+//@   ensures [restoresNode] task.NodeName == previousNode
+//@   ensures [restoresGpuGroups] task.GPUGroups == previousGpuGroups
+//@   ensures [restoresVirtual] task.IsVirtualStatus == previousIsVirtualStatus
+//@   ensures [restoresClaims] task.ResourceClaimInfo == previousResourceClaimInfo
+//@   ensures [restoresStatus] task.Status == previousStatus || task.Status == old(task.Status)
+//@   ensures [failsIffNodeUnknown] (result != nil) == !old(task.NodeName in s.ssn.ClusterInfo.Nodes)
+//@   ensures [oppositeHandler] allocEvents() == old(allocEvents()) && (result == nil && old(allHaveDealloc(s.ssn)) ==> deallocEvents() == old(deallocEvents()) + old(len(s.ssn.eventHandlers)))
+//@   ensures [noHandlerOnFailure] result != nil ==> deallocEvents() == old(deallocEvents())
+//@   ensures [virtual] noEmission() && reversals() == old(reversals())
+//@   ensures [logsSame] logsSame()
+//@   ensures [commitEnvKept] commitEnvKept(s.ssn)
+//@ end
+
+//@ func (*Statement).unallocate
+//@   props C13 C01
+//@   requires stmtOK(s) && task != nil
+//@   assume jobReady(s.ssn.ClusterInfo.PodGroupInfos[task.Job], task) && nodeReady(s.ssn.ClusterInfo.Nodes[task.NodeName], task) && jobNodeSep(s.ssn.ClusterInfo.PodGroupInfos[task.Job], s.ssn.ClusterInfo.Nodes[task.NodeName])
+//@   modifies *
+//@   loop 1
+//@     invariant 0 - 1 <= rangeindex && rangeindex < len(s.ssn.eventHandlers)
+//@     invariant deallocEvents() - old(deallocEvents()) <= rangeindex + 1
+//@     invariant old(allHaveDealloc(s.ssn)) ==> deallocEvents() - old(deallocEvents()) == rangeindex + 1
+//@     decreases len(s.ssn.eventHandlers) - rangeindex
+//@   ensures [failsIffNodeUnknown] (result != nil) == !old(task.NodeName in s.ssn.ClusterInfo.Nodes)
+//@   ensures [clearsNode] result == nil ==> task.NodeName == "" && task.IsVirtualStatus == previousIsVirtualStatus
+//@   ensures [backToPending] task.Status == pod_status.Pending || task.Status == old(task.Status)
+//@   ensures [gpuGroupsKept] task.GPUGroups == old(task.GPUGroups) && task.ResourceClaimInfo == old(task.ResourceClaimInfo)
+//@   ensures [oppositeHandler] allocEvents() == old(allocEvents()) && (result == nil && old(allHaveDealloc(s.ssn)) ==> deallocEvents() == old(deallocEvents()) + old(len(s.ssn.eventHandlers)))
+//@   ensures [virtual] noEmission() && reversals() == old(reversals())
+//@   ensures [logsSame] logsSame()
+//@   ensures [callerLocals] (forall p *error :: old(allocated(p)) ==> *p == old(*p)) && (forall p **pod_info.PodInfo :: old(allocated(p)) ==> *p == old(*p))
+//@   ensures [commitEnvKept] commitEnvKept(s.ssn)
+//@ end
+
+// ---- ops ------------------------------------------------------------------------------------------
+// C13: "the op appends exactly one log entry whose captured previous* values equal the pre-state
+// fields". evOp(s)/plOp(s)/alOp(s): the payload of the last log entry.
+//@ define lastOp(s *Statement) Operation = s.operations[len(s.operations) - 1]
+//@ define appendedOne(s *Statement) bool = len(s.operations) == old(len(s.operations)) + 1 && (forall j int :: 0 <= j && j < old(len(s.operations)) ==> s.operations[j] == old(s.operations[j]))
+
+//@ func (*Statement).Evict
+//@   props C13 C06
+//@   requires stmtOK(s) && reclaimeeTask != nil
+//@   assume jobReady(s.ssn.ClusterInfo.PodGroupInfos[reclaimeeTask.Job], reclaimeeTask) && nodeReady(s.ssn.ClusterInfo.Nodes[reclaimeeTask.NodeName], reclaimeeTask)
+//@   modifies *
+//@   loop 1
+//@     invariant 0 - 1 <= rangeindex && rangeindex < len(s.ssn.eventHandlers)
+//@     invariant deallocEvents() - old(deallocEvents()) <= rangeindex + 1
+//@     decreases len(s.ssn.eventHandlers) - rangeindex
+//@   ensures [errorKeepsLog] result != nil ==> s.operations == old(s.operations)
+//@   ensures [failsOnUnknownJobOrNode] !old(reclaimeeTask.Job in s.ssn.ClusterInfo.PodGroupInfos) || !old(reclaimeeTask.NodeName in s.ssn.ClusterInfo.Nodes) ==> result != nil && reclaimeeTask.Status == old(reclaimeeTask.Status)
+//@   ensures [appendsOneEvict] result == nil ==> appendedOne(s) && isEvictOp(lastOp(s))
+//@   ensures [capturesTask] result == nil ==> unbox(lastOp(s), "evictOperation").taskInfo == reclaimeeTask
+//@   ensures [capturesStatus] result == nil ==> unbox(lastOp(s), "evictOperation").previousStatus == old(reclaimeeTask.Status)
+//@   ensures [capturesGpuGroups] result == nil ==> unbox(lastOp(s), "evictOperation").previousGpuGroups == old(reclaimeeTask.GPUGroups)
+//@   ensures [capturesNode] result == nil ==> unbox(lastOp(s), "evictOperation").previousNode == old(s.ssn.ClusterInfo.Nodes[reclaimeeTask.NodeName])
+//@   ensures [capturesClaims] result == nil ==> (unbox(lastOp(s), "evictOperation").previousResourceClaimInfo == nil) == (old(reclaimeeTask.ResourceClaimInfo) == nil)
+//@   ensures [capturesMessage] result == nil ==> unbox(lastOp(s), "evictOperation").message == message && unbox(lastOp(s), "evictOperation").evictionMetadata.Action == evictionMetadata.Action && unbox(lastOp(s), "evictOperation").evictionMetadata.Preemptor == evictionMetadata.Preemptor
+//@   ensures [reversible] result == nil ==> unbox(lastOp(s), "evictOperation").reverseOperation != nil
+//@   ensures [nowReleasing] result == nil ==> reclaimeeTask.Status == pod_status.Releasing && reclaimeeTask.IsVirtualStatus
+//@   ensures [otherFieldsKept] reclaimeeTask.NodeName == old(reclaimeeTask.NodeName) && reclaimeeTask.GPUGroups == old(reclaimeeTask.GPUGroups) && reclaimeeTask.ResourceClaimInfo == old(reclaimeeTask.ResourceClaimInfo)
+//@   ensures [handlerPolarity] allocEvents() == old(allocEvents())
+//@   ensures [virtual] noEmission() && reversals() == old(reversals())
+//@   ensures [wf] old(wfLog(s)) ==> wfLog(s)
+//@ end
+
+//@ func (*Statement).Allocate
+//@   props C13 C01
+//@   requires stmtOK(s) && task != nil
+//@   assume jobReady(s.ssn.ClusterInfo.PodGroupInfos[task.Job], task) && nodeReady(s.ssn.ClusterInfo.Nodes[hostname], task)
+//@   modifies *
+//@   loop 1
+//@     invariant 0 - 1 <= rangeindex && rangeindex < len(s.ssn.eventHandlers)
+//@     invariant allocEvents() - old(allocEvents()) <= rangeindex + 1
+//@     decreases len(s.ssn.eventHandlers) - rangeindex
+//@   ensures [errorKeepsLog] result != nil ==> s.operations == old(s.operations)
+//@   ensures [failsOnUnknownJobOrNode] !old(task.Job in s.ssn.ClusterInfo.PodGroupInfos) || !old(hostname in s.ssn.ClusterInfo.Nodes) ==> result != nil
+//@   ensures [appendsOneAllocate] result == nil ==> appendedOne(s) && isAllocateOp(lastOp(s))
+//@   ensures [capturesClone] result == nil ==> unbox(lastOp(s), "allocateOperation").taskInfo != task && unbox(lastOp(s), "allocateOperation").taskInfo.UID == task.UID && unbox(lastOp(s), "allocateOperation").taskInfo.Job == task.Job && unbox(lastOp(s), "allocateOperation").taskInfo.Pod == task.Pod && unbox(lastOp(s), "allocateOperation").taskInfo.NodeName == hostname
+//@   ensures [capturesNode] result == nil ==> unbox(lastOp(s), "allocateOperation").nextNode == old(s.ssn.ClusterInfo.Nodes[hostname]).Name
+//@   ensures [reversible] result == nil ==> unbox(lastOp(s), "allocateOperation").reverseOperation != nil
+//@   ensures [nowAllocated] result == nil ==> task.Status == pod_status.Allocated && task.NodeName == hostname && task.IsVirtualStatus
+//@   ensures [handlerPolarity] deallocEvents() == old(deallocEvents())
+//@   ensures [virtual] noEmission() && reversals() == old(reversals())
+//@   ensures [wf] old(wfLog(s)) ==> wfLog(s)
+//@ end
+
+// Unevict(task) = undo the earliest still valid evict entry of that task.
+//@ func (*Statement).undoEarliestValidOperation
+//@   props C13
+//@   requires s != nil && wfLog(s) && taskToUndo != nil
+//@   modifies *
+//@   loop 1
+//@     invariant 0 - 1 <= rangeindex && rangeindex < len(s.operations)
+//@     decreases len(s.operations) - rangeindex
+//@   ensures [lenGrows] len(s.operations) >= old(len(s.operations))
+//@   ensures [prefixKept] forall j int :: 0 <= j && j < old(len(s.operations)) ==> s.operations[j] == old(s.operations[j])
+//@   ensures [wfKnown] wfKnown(s)
+//@   ensures [wfRev] wfRev(s)
+//@   ensures [wfBack] wfBack(s)
+//@   ensures [wfTask] wfTask(s)
+//@   ensures [reversalsMonotone] old(reversals()) <= reversals()
+//@   ensures [callerLocals] (forall p **Statement :: old(allocated(p)) ==> *p == old(*p)) && (forall p **pod_info.PodInfo :: old(allocated(p)) ==> *p == old(*p))
+//@   ensures [emptyLogFails] old(len(s.operations)) == 0 ==> result != nil && reversals() == old(reversals())
+//@   ensures [virtual] cache.evictCalls() == old(cache.evictCalls()) && cache.pipelinedCalls() == old(cache.pipelinedCalls()) && cache.bindCalls() == old(cache.bindCalls())
+//@ end
+//@ func (*Statement).Unevict
+//@   inline
+//@ end
+
+// library model (assumed): element-wise slice equality
+//@ func golang.org/x/exp/slices.Equal
+//@   pure
+//@   ensures result == (len(s1) == len(s2) && (forall i int :: 0 <= i && i < len(s1) ==> s1[i] == s2[i]))
+//@   note assumed library model of golang.org/x/exp/slices.Equal
+//@ end
+
+// Pipeline (nominate). Three outcomes: unknown node/job (error, nothing touched); the task still sits
+// on that node from an earlier virtual eviction and no update is asked for (the eviction is undone
+// instead: Unevict); otherwise one pipeline entry is appended.
+//@ define plOp(s *Statement) pipelineOperation = unbox(lastOp(s), "pipelineOperation")
+//@ func (*Statement).Pipeline
+//@   props C13 C01
+//@   requires stmtOK(s) && wfLog(s) && task != nil
+//@   requires hostname in s.ssn.ClusterInfo.Nodes ==> (forall k in s.ssn.ClusterInfo.Nodes[hostname].PodInfos :: s.ssn.ClusterInfo.Nodes[hostname].PodInfos[k] != nil)
+//@   assume jobReady(s.ssn.ClusterInfo.PodGroupInfos[task.Job], task) && nodeReady(s.ssn.ClusterInfo.Nodes[hostname], task)
+//@   modifies *
+//@   loop 1
+//@     invariant 0 - 1 <= rangeindex && rangeindex < len(s.ssn.eventHandlers)
+//@     invariant allocEvents() - old(allocEvents()) <= rangeindex + 1
+//@     invariant s.operations == old(s.operations)
+//@     decreases len(s.ssn.eventHandlers) - rangeindex
+//@   ensures [failsOnUnknownJobOrNode] !old(task.Job in s.ssn.ClusterInfo.PodGroupInfos) || !old(hostname in s.ssn.ClusterInfo.Nodes) ==> result != nil && s.operations == old(s.operations) && task.Status == old(task.Status) && task.NodeName == old(task.NodeName)
+//@   ensures [lenGrows] len(s.operations) >= old(len(s.operations))
+//@   ensures [prefixKept] forall j int :: 0 <= j && j < old(len(s.operations)) ==> s.operations[j] == old(s.operations[j])
+//@   ensures [virtual] noEmission()
+//@   ensures [wfKnown] wfKnown(s)
+//@   ensures [wfRev] wfRev(s)
+//@   ensures [wfBack] wfBack(s)
+//@   ensures [wfTask] wfTask(s)
+//@ end
+
+// ---- the closures stored in log entries ---------------------------------------------------------
+// Each ReverseOperation value is one of these closures. They are verified against the frame facts
+// that the assumed `type:ReverseOperation` contract promises (logs only grow / old entries kept /
+// appended entries well-formed / no cache call).
+//@ func (*Statement).Evict$1
+//@   props C13
+//@   requires stmtOK(s) && reclaimeeTask != nil
+//@   modifies *
+//@   ensures logsSame() && noEmission()
+//@ end
+//@ func (*Statement).Pipeline$1
+//@   props C13
+//@   requires stmtOK(s) && task != nil
+//@   modifies *
+//@   ensures logsSame() && noEmission()
+//@ end
+//@ func (*Statement).Allocate$1
+//@   props C13
+//@   requires stmtOK(s) && task != nil && node != nil
+//@   modifies *
+//@   ensures logsSame() && noEmission()
+//@ end
+
+
+// ---- commit ---------------------------------------------------------------------------------------
+// The three emission points. cache.evictCalls()/pipelinedCalls()/bindCalls() are ghost counters
+// bumped by the (assumed) cache interface contracts.
+//@ define emitsOnly(de int, dp int, db int) bool = cache.evictCalls() - old(cache.evictCalls()) <= de && cache.pipelinedCalls() - old(cache.pipelinedCalls()) <= dp && cache.bindCalls() - old(cache.bindCalls()) <= db && cache.evictCalls() >= old(cache.evictCalls()) && cache.pipelinedCalls() >= old(cache.pipelinedCalls()) && cache.bindCalls() >= old(cache.bindCalls())
+
+//@ func (*Statement).commitEvict
+//@   props C13 C06
+//@   requires stmtOK(s) && s.ssn.Cache != nil && reclaimee != nil
+//@   modifies *
+//@   ensures [oneEvictAtMost] emitsOnly(1, 0, 0)
+//@   ensures [evictIffGroupKnown] old(reclaimee.Job in s.ssn.ClusterInfo.PodGroupInfos) ==> cache.evictCalls() == old(cache.evictCalls()) + 1
+//@   ensures [committedIsReal] result == nil ==> !reclaimee.IsVirtualStatus
+//@   ensures [logsSame] logsSame()
+//@   ensures [commitEnvKept] commitEnvKept(s.ssn)
+//@ end
+
+//@ func (*Statement).commitPipeline
+//@   props C13
+//@   requires s != nil && s.ssn != nil && s.ssn.Cache != nil
+//@   modifies cache.pipelinedCalls()
+//@   ensures cache.pipelinedCalls() == old(cache.pipelinedCalls()) + 1
+//@ end
+
+//@ func (*Session).MutateBindRequestAnnotations
+//@   props C01
+//@   requires ssn != nil
+//@   requires forall i int :: 0 <= i && i < len(ssn.BindRequestMutateFns) ==> ssn.BindRequestMutateFns[i] != nil
+//@   fresh
+//@   loop 1
+//@     invariant 0 - 1 <= rangeindex && rangeindex < len(ssn.BindRequestMutateFns)
+//@     invariant annotations != nil && fresh(annotations)
+//@     invariant forall m map[string]string, k string :: m != annotations ==> (k in m) == old(k in m) && m[k] == old(m[k])
+//@     decreases len(ssn.BindRequestMutateFns) - rangeindex
+//@ end
+
+
+// C01: "whatever bind/evict API calls fail": a failing Bind leaves the session's view of the pod as it was.
+//@ func (*Session).BindPod
+//@   props C13 C01
+//@   requires sessOK(ssn) && ssn.Cache != nil && bindFnsOK(ssn) && pod != nil && pod.Pod != nil
+//@   assume jobReady(ssn.ClusterInfo.PodGroupInfos[pod.Job], pod)
+//@   modifies *
+//@   ensures [oneBind] cache.bindCalls() == old(cache.bindCalls()) + 1 && cache.evictCalls() == old(cache.evictCalls()) && cache.pipelinedCalls() == old(cache.pipelinedCalls())
+//@   ensures [boundIsBinding] result == nil ==> pod.Status == pod_status.Binding
+//@   ensures [failureKeepsStatus] result != nil ==> pod.Status == old(pod.Status)
+//@   ensures [placementKept] pod.NodeName == old(pod.NodeName) && pod.GPUGroups == old(pod.GPUGroups) && pod.IsVirtualStatus == old(pod.IsVirtualStatus)
+//@   ensures [logsSame] logsSame()
+//@   ensures [noHandlers] allocEvents() == old(allocEvents()) && deallocEvents() == old(deallocEvents())
+//@   ensures [commitEnvKept] commitEnvKept(ssn)
+//@   ensures [callerLocals] (forall p **Statement :: old(allocated(p)) ==> *p == old(*p)) && (forall p **pod_info.PodInfo :: old(allocated(p)) ==> *p == old(*p)) && (forall p **node_info.NodeInfo :: old(allocated(p)) ==> *p == old(*p))
+//@   nopanic off
+//@   note nopanic off: `&pod.Pod.CreationTimestamp.Time` (address of a field inside the opaque metav1.Time scalar, argument of a metrics no-op) is over-approximated by the engine as a fresh pointer
+//@ end
+
+//@ func (*Statement).cleanupFailedAllocation
+//@   inline
+//@ end
+
+// C01: "commitAllocate/cleanupFailedAllocation undo a failed bind".
+//@ func (*Statement).commitAllocate
+//@   props C13 C01
+//@   requires stmtOK(s) && s.ssn.Cache != nil && bindFnsOK(s.ssn) && task != nil && task.Pod != nil
+//@   requires nodesShared(s.ssn.ClusterInfo)
+//@   modifies *
+//@   loop 1
+//@     invariant 0 - 1 <= rangeindex && rangeindex < len(task.GPUGroups)
+//@     invariant cache.bindCalls() == old(cache.bindCalls())
+//@     decreases len(task.GPUGroups) - rangeindex
+//@   ensures [oneBindAtMost] emitsOnly(0, 0, 1)
+//@   ensures [bindIffNodeKnown] cache.bindCalls() == old(cache.bindCalls()) + ite(old(task.NodeName in s.ssn.ClusterInfo.Nodes), 1, 0)
+//@   ensures [boundIsBinding] result == nil ==> task.Status == pod_status.Binding
+//@   ensures [boundKeepsNode] result == nil ==> task.NodeName == old(task.NodeName)
+//@   ensures [failedBindIsUnallocated] result != nil && old(task.NodeName in s.ssn.ClusterInfo.Nodes) ==> task.NodeName == ""
+//@   ensures [failedBindNotVirtual] result != nil && old(task.NodeName in s.ssn.ClusterInfo.Nodes) ==> !task.IsVirtualStatus
+//@   ensures [logsSame] logsSame()
+//@   ensures [commitEnvKept] commitEnvKept(s.ssn)
+//@ end
+
+// C13 (top): "Committing emits exactly the net effect of the steps still valid: ... nothing is
+// emitted for undone steps"; "log cleared on every path". Commit runs at a quiescent point, so the
+// log is flat: entry j is live iff it is not an undo entry and no undo entry targets it.
+//@ define live(s *Statement, j int) bool = !isUndoOp(s.operations[j]) && noUndoFor(s, j)
+//@ define emitted() int = cache.evictCalls() + cache.pipelinedCalls() + cache.bindCalls()
+//@ define commitReady(s *Statement) bool = stmtOK(s) && s.ssn.Cache != nil && bindFnsOK(s.ssn) && nodesShared(s.ssn.ClusterInfo) && (forall j int :: 0 <= j && j < len(s.operations) && isAllocateOp(s.operations[j]) ==> opTask(s.operations[j]).Pod != nil)
+
+//@ func (*Statement).Commit
+//@   props C13 C01 C06
+//@   requires commitReady(s) && wfLog(s) && flatLog(s)
+//@   modifies *
+//@   loop 1
+//@     modifies *
+//@     invariant 0 - 1 <= rangeindex && rangeindex < old(len(s.operations))
+//@     invariant s.operations == old(s.operations)
+//@     invariant forall j int :: 0 <= j && j < old(len(s.operations)) ==> s.operations[j] == old(s.operations[j])
+//@     invariant commitReady(s)
+//@     invariant cache.evictCalls() >= old(cache.evictCalls()) && cache.pipelinedCalls() >= old(cache.pipelinedCalls()) && cache.bindCalls() >= old(cache.bindCalls())
+//@     invariant emitted() - old(emitted()) <= rangeindex + 1
+//@     invariant (forall j int :: 0 <= j && j <= rangeindex ==> !old(live(s, j))) ==> emitted() == old(emitted())
+//@     invariant (forall j int :: 0 <= j && j <= rangeindex ==> !(old(live(s, j)) && isEvictOp(old(s.operations[j])))) ==> cache.evictCalls() == old(cache.evictCalls())
+//@     invariant (forall j int :: 0 <= j && j <= rangeindex ==> !(old(live(s, j)) && isPipelineOp(old(s.operations[j])))) ==> cache.pipelinedCalls() == old(cache.pipelinedCalls())
+//@     invariant (forall j int :: 0 <= j && j <= rangeindex ==> !(old(live(s, j)) && isAllocateOp(old(s.operations[j])))) ==> cache.bindCalls() == old(cache.bindCalls())
+//@     decreases old(len(s.operations)) - rangeindex
+//@   ensures [logCleared] len(s.operations) == 0
+//@   ensures [atMostOnePerEntry] emitted() - old(emitted()) <= old(len(s.operations))
+//@   ensures [nothingForUndone] (forall j int :: 0 <= j && j < old(len(s.operations)) ==> !old(live(s, j))) ==> emitted() == old(emitted())
+//@   ensures [evictOnlyForLiveEvicts] (forall j int :: 0 <= j && j < old(len(s.operations)) ==> !(old(live(s, j)) && isEvictOp(old(s.operations[j])))) ==> cache.evictCalls() == old(cache.evictCalls())
+//@   ensures [nominateOnlyForLivePipelines] (forall j int :: 0 <= j && j < old(len(s.operations)) ==> !(old(live(s, j)) && isPipelineOp(old(s.operations[j])))) ==> cache.pipelinedCalls() == old(cache.pipelinedCalls())
+//@   ensures [bindOnlyForLiveAllocates] (forall j int :: 0 <= j && j < old(len(s.operations)) ==> !(old(live(s, j)) && isAllocateOp(old(s.operations[j])))) ==> cache.bindCalls() == old(cache.bindCalls())
+//@   ensures [emptyLogIsNoop] old(len(s.operations)) == 0 ==> result == nil && emitted() == old(emitted())
 //@ end
